@@ -123,10 +123,10 @@ struct C17 : Property {
       t += r.chance(0.6) ? r.range(5, 60) : r.range(60, 3000);
       double x = (r.next() >> 11) * (1.0 / 9007199254740992.0);
       int peer = (int)r.below((uint64_t)npeers);
-      if (x < 0.2 && ndyn < 4) { std::string nm = "d" + std::to_string(ndyn++); ress.push_back(nm); ops.push_back({{"t_ms", t}, {"op", "create"}, {"peer", peer}, {"res", nm}}); }
+      if (x < 0.2 && ndyn < 4) { static const char *const DN[4] = {"t", "t1", "t12", "u"}; std::string nm = DN[ndyn++]; ress.push_back(nm); ops.push_back({{"t_ms", t}, {"op", "create"}, {"peer", peer}, {"res", nm}}); }
       else if (x < 0.5) ops.push_back({{"t_ms", t}, {"op", "observe"}, {"peer", peer}, {"res", ress[r.below(ress.size())]}, {"con", r.chance(0.7)}});
       else if (x < 0.58) ops.push_back({{"t_ms", t}, {"op", "cancel"}, {"peer", peer}, {"res", ress[r.below(ress.size())]}});
-      else if (x < 0.66 && ndyn > 0) ops.push_back({{"t_ms", t}, {"op", "delete"}, {"peer", peer}, {"res", "d" + std::to_string(r.below((uint64_t)ndyn))}});
+      else if (x < 0.66 && ndyn > 0) ops.push_back({{"t_ms", t}, {"op", "delete"}, {"peer", peer}, {"res", std::string(std::vector<const char *>{"t", "t1", "t12", "u"}[r.below((uint64_t)ndyn)])}});
       else ops.push_back({{"t_ms", t}, {"op", "change"}, {"res", ress[r.below(ress.size())]}, {"times", r.chance(0.5) ? 1 : (int)r.range(2, 12)}});
     }
     p["ops"] = ops;
